@@ -4,7 +4,7 @@
    while unread bytes remain) over ONE segmentation `chunks` of the stream `concat chunks`; the
    theorems quantify over all segmentations, with no bound on stream length or chunk count. *)
 From OlaBase Require Import Bytes.
-From C10 Require Import Gen Model Lemmas ProofsRecv ProofsUsb ProofsRobe ProofsOpc.
+From C10 Require Import Gen Model Lemmas ProofsRecv ProofsUsb ProofsRobe ProofsOpc ProofsAcn Schedule ProofsSched ProofsSchedOpc.
 Local Open Scope N_scope.
 
 (* Side obligations: the constants regenerated from the headers are the numbers used by the
@@ -12,7 +12,10 @@ Local Open Scope N_scope.
 Theorem c10_consts :
   (USB_SOM, USB_EOM, USB_MAX, USB_BUF, USB_HEADER) = (126, 231, 600, 600, 4) /\
   (ROBE_SOM, ROBE_MAX, ROBE_BUF, ROBE_HEADER) = (165, 522, 522, 5) /\
-  (OPC_HEADER_SIZE, OPC_FRAME_SIZE) = (4, 516).
+  (OPC_HEADER_SIZE, OPC_FRAME_SIZE) = (4, 516) /\
+  ACN_HEADER = [65; 83; 67; 45; 69; 49; 46; 49; 55; 0; 0; 0] /\
+  (ACN_HEADER_SIZE, ACN_PDU_BLOCK_SIZE, ACN_TWO_BYTES, ACN_THREE_BYTES, ACN_LFLAG_MASK, ACN_LENGTH_MASK,
+   ACN_INITIAL_SIZE) = (12, 4, 2, 3, 128, 15, 500).
 Proof. repeat split; reflexivity. Qed.
 Print Assumptions c10_consts.
 
@@ -99,6 +102,75 @@ Theorem c10_opc_bounds : forall chunks s out,
 Proof. intros chunks s out Hb H. exact (opc_reachable_bounds chunks s out Hb H). Qed.
 Print Assumptions c10_opc_bounds.
 
+(* ACN over TCP (IncomingStreamTransport with a consume-all inflator).  PARTIAL with respect to the
+   reference framer: proved here is that EVERY partition of a stream is processed without an
+   out-of-range store / runaway loop and delivers the same PDU sequence and reaches the same state as
+   the stream arriving all at once and as the stream arriving one byte at a time (the property's own
+   formulation).  That this common sequence equals ref_acn stream is checked by the correspondence on
+   every generated case, not proved. *)
+Theorem c10_acn_chunk_free_partial : forall (stream : list N) (chunks : list (list N)),
+  concat chunks = stream ->
+  exists s out, feed a_recv a_init chunks = Done s out /\
+                feed a_recv a_init [stream] = Done s out /\
+                feed a_recv a_init (map (fun b => [b]) stream) = Done s out.
+Proof.
+  intros stream chunks H.
+  destruct (acn_partition_independent chunks [stream]) as [E1 (s & out & E)].
+  { cbn [concat]. rewrite app_nil_r. exact H. }
+  destruct (acn_partition_independent chunks (map (fun b => [b]) stream)) as [E2 _].
+  { rewrite concat_singletons. exact H. }
+  exists s, out. rewrite <- E1, <- E2. auto.
+Qed.
+Print Assumptions c10_acn_chunk_free_partial.
+
+(* Buffer growth: in every reachable state of a still valid stream the bytes held fit the
+   allocation (<= 2 MB), the allocation ReadRequiredData makes before reading covers everything still
+   outstanding (so no store is out of range: the model's None outcome is excluded by the theorem
+   above), and at least one byte is outstanding (Receive() cannot spin). *)
+Theorem c10_acn_bounds : forall chunks s out,
+  feed a_recv a_init chunks = Done s out -> a_valid s = true ->
+  a_len s <= a_cap s /\ a_cap s <= 2097152 /\ a_len s + a_out s <= a_cap1 s /\ 0 < a_out s.
+Proof. intros chunks s out H Hv. exact (acn_reachable_bounds chunks s out H Hv). Qed.
+Print Assumptions c10_acn_bounds.
+
+(* Read schedules.  `run_sched` executes an arbitrary interleaving of `Arrive bytes` (data reaches
+   the kernel buffer) and `Invoke` (the poller runs the on-data callback; it does so only while
+   unread data exists).  For every interleaving: no hazard; if it ends with the buffer drained the
+   deliveries are exactly the reference framer's on everything that arrived; and finitely many
+   further invocations always drain it (the callback is re-invoked while data remains).  Feeding
+   chunk k and draining, as `feed` and the harness do, is therefore no restriction. *)
+Theorem c10_schedule_usbpro : forall es,
+  (exists s pend out, run_sched ustate u_recv (u_init, [], []) es = Some (s, pend, out) /\
+     (pend = [] -> out = ref_usb (arrived es))) /\
+  (exists k s out, run_sched ustate u_recv (u_init, [], []) (es ++ repeat Invoke k) = Some (s, [], out) /\
+     out = ref_usb (arrived es)).
+Proof. exact usb_sched. Qed.
+Print Assumptions c10_schedule_usbpro.
+
+Theorem c10_schedule_robe : forall es,
+  (exists s pend out, run_sched rstate r_recv (r_init, [], []) es = Some (s, pend, out) /\
+     (pend = [] -> out = ref_robe (arrived es))) /\
+  (exists k s out, run_sched rstate r_recv (r_init, [], []) (es ++ repeat Invoke k) = Some (s, [], out) /\
+     out = ref_robe (arrived es)).
+Proof. exact robe_sched. Qed.
+Print Assumptions c10_schedule_robe.
+
+Theorem c10_schedule_opc : forall es, bytes_ok (arrived es) = true ->
+  (exists s pend out, run_sched ostate o_recv (o_init, [], []) es = Some (s, pend, out) /\
+     (pend = [] -> out = ref_opc (arrived es))) /\
+  (exists k s out, run_sched ostate o_recv (o_init, [], []) (es ++ repeat Invoke k) = Some (s, [], out) /\
+     out = ref_opc (arrived es)).
+Proof. exact opc_sched. Qed.
+Print Assumptions c10_schedule_opc.
+
+Theorem c10_schedule_acn : forall es,
+  (exists s pend out, run_sched astate a_recv (a_init, [], []) es = Some (s, pend, out) /\
+     (pend = [] -> feed a_recv a_init [arrived es] = Done s out)) /\
+  (exists k s out, run_sched astate a_recv (a_init, [], []) (es ++ repeat Invoke k) = Some (s, [], out) /\
+     feed a_recv a_init [arrived es] = Done s out).
+Proof. exact acn_sched. Qed.
+Print Assumptions c10_schedule_acn.
+
 (* the hypotheses are satisfiable / the statements are not vacuous *)
 Example c10_usbpro_example :
   ref_usb [0; 126; 6; 2; 0; 10; 20; 231; 126; 7; 0; 0; 231; 126; 8; 1; 0; 5; 0] = [(6, [10; 20]); (7, [])] /\
@@ -116,4 +188,14 @@ Proof. vm_compute; reflexivity. Qed.
 Example c10_opc_example :
   feed o_recv o_init [[1; 0; 0; 2; 9; 8; 2; 0; 0]; [1; 7; 3]] =
     Done {| o_data := [3]; o_cap := 516 |} [(256, [9; 8]); (512, [7])].
+Proof. vm_compute; reflexivity. Qed.
+Example c10_acn_example :
+  feed a_recv a_init [[65; 83; 67; 45; 69; 49; 46]; [49; 55; 0; 0; 0; 0; 0; 0; 5; 0; 3]; [9; 0; 2; 65]] =
+    Done (fst (run1 a_step a_init [65; 83; 67; 45; 69; 49; 46; 49; 55; 0; 0; 0; 0; 0; 0; 5; 0; 3; 9; 0; 2; 65]))
+         [(0, [0; 3; 9]); (0, [0; 2])] /\
+  ref_acn [65; 83; 67; 45; 69; 49; 46; 49; 55; 0; 0; 0; 0; 0; 0; 5; 0; 3; 9; 0; 2; 65] = [(0, [0; 3; 9]); (0, [0; 2])].
+Proof. split; vm_compute; reflexivity. Qed.
+Example c10_schedule_example :
+  run_sched ustate u_recv (u_init, [], []) [Arrive [126; 6]; Invoke; Arrive [1; 0; 9]; Arrive [231; 126]; Invoke; Invoke] =
+    Some ({| u_st := U_LABEL; u_label := 6; u_lo := 1; u_hi := 0; u_body := [9] |}, [], [(6, [9])]).
 Proof. vm_compute; reflexivity. Qed.
